@@ -168,7 +168,7 @@ SPEC = {
     "gens": ["MacroTables", "LexTables"],
     "lean_modules": ["RsslVerif.Thm.C12", "RsslVerif.Thm.C12Boundary"],
     "theorems": [T + n for n in [
-        "source_shape", "expand_terminates", "expand_never_hangs", "object_like_is_substitution", "function_like_is_substitution",
+        "source_shape", "source_shape_directive_forms", "expand_terminates", "expand_never_hangs", "object_like_is_substitution", "function_like_is_substitution",
         "define_undef_scoping", "macro_names_always_distinct", "api_defines_equal_file_defines",
         "expand_refines_spec_partial", "expand_refines_spec", "expand_refines_spec_decided", "tame_class_is_decided",
         "expand_refines_spec_with_paste", "expand_refines_spec_with_paste_decided",
@@ -293,7 +293,8 @@ SPEC = {
         "MacroSearchPosition literal and the conditions of find_single_macro that consult it, the three trimming loops and "
         "which of them split_macro_args / find_single_macro / the arity test use, the statement sequence of the User arm "
         "from substitution to splice (no guard around the rescan), the Macro::parse + retain + push "
-        "path of initial defines, compile()'s built-in defines) and tools/gens/c10.py (LexTables, for paste_matches_lexer) — "
+        "path of initial defines, compile()'s built-in defines; wave 5: the patterns and guards of the line state machine of "
+        "preprocess_included_file, the operand arms of #include, the arms of preprocess_command that reject a directive) and tools/gens/c10.py (LexTables, for paste_matches_lexer) — "
         "re-run on /repo's working tree every time",
         "hand-written Model/Macro.lean and Model/Include.lean mirror preprocess.rs; tied to the code by the correspondence run only",
         "Spec/CPreMacro.lean: our reading of C11 6.10.3 (Prosser's algorithm) and 6.10.3.5 (scope of definitions); "
